@@ -87,7 +87,8 @@ func CLAIM1(e *Env) {
 	}
 	name := e.Name(fn)
 	type claimMap struct {
-		m        *ssa.MakeMap
+		id       string
+		pos      token.Pos
 		wDims    map[int]bool
 		wForms   map[string]bool // "T" and "*T"
 		bad      string
@@ -95,35 +96,84 @@ func CLAIM1(e *Env) {
 		readDim  int
 		readLoop *ssau.Loop
 		key      ssa.Value
-		lookup   *ssa.Lookup
+		lookup   ssa.Value // the boolean answer "key is claimed" in fn (a Lookup, or a call of a lookup helper)
 	}
-	maps := map[*ssa.MakeMap]*claimMap{}
-	var order []*ssa.MakeMap
-	ssau.AllInstrs(fn, func(in ssa.Instruction) {
-		if mm, ok := in.(*ssa.MakeMap); ok {
-			if mt, ok := mm.Type().Underlying().(*types.Map); ok {
-				if b, ok := mt.Elem().Underlying().(*types.Basic); ok && b.Kind() == types.Bool {
-					maps[mm] = &claimMap{m: mm, wDims: map[int]bool{}, wForms: map[string]bool{}}
-					order = append(order, mm)
+	// A claimed set is identified by ROLE, not by being a local map: it is a map[string]bool that is
+	// either made in this function, or reached through a field of a formats/ply struct value; the
+	// identity is (root value, field), with the parameters of a same-package helper bound to the
+	// arguments of its call.
+	maps := map[string]*claimMap{}
+	var order []string
+	isBoolMap := func(t types.Type) bool {
+		mt, ok := t.Underlying().(*types.Map)
+		if !ok {
+			return false
+		}
+		b, ok := mt.Elem().Underlying().(*types.Basic)
+		return ok && b.Kind() == types.Bool
+	}
+	rootKey := func(v ssa.Value, bind map[ssa.Value]ssa.Value) string {
+		if bound, ok := bind[v]; ok {
+			v = bound
+		}
+		return PathKey(v)
+	}
+	mapID := func(v ssa.Value, bind map[ssa.Value]ssa.Value) (string, bool) {
+		if !isBoolMap(v.Type()) {
+			return "", false
+		}
+		switch x := v.(type) {
+		case *ssa.MakeMap:
+			if bind == nil {
+				return "make:" + x.Name(), true
+			}
+		case *ssa.Field:
+			if f := ssau.FieldOf(x); f != nil && f.Pkg() != nil && f.Pkg().Path() == PlyPath {
+				return rootKey(x.X, bind) + "." + f.Name(), true
+			}
+		case *ssa.UnOp:
+			if fa, ok := x.X.(*ssa.FieldAddr); ok && x.Op == token.MUL {
+				if f := ssau.FieldOf(fa); f != nil && f.Pkg() != nil && f.Pkg().Path() == PlyPath {
+					base := fa.X
+					// a spilled value receiver / parameter: `*alloc = param`
+					if al, isA := base.(*ssa.Alloc); isA {
+						for _, r := range ssau.Refs(al) {
+							if st, ok := r.(*ssa.Store); ok && st.Addr == ssa.Value(al) {
+								if _, isP := st.Val.(*ssa.Parameter); isP {
+									base = st.Val
+								}
+							}
+						}
+						if base == fa.X {
+							return "*" + PathKey(base) + "." + f.Name(), true
+						}
+					}
+					return rootKey(base, bind) + "." + f.Name(), true
 				}
 			}
 		}
-	})
+		return "", false
+	}
+	get := func(id string, pos token.Pos) *claimMap {
+		cm := maps[id]
+		if cm == nil {
+			cm = &claimMap{id: id, pos: pos, wDims: map[int]bool{}, wForms: map[string]bool{}}
+			maps[id] = cm
+			order = append(order, id)
+		}
+		return cm
+	}
 	loops := e.Loops(fn)
 	writerSites := literalSites(fn, func(t *types.Named) bool {
 		return t.Obj().Pkg() != nil && t.Obj().Pkg().Path() == PlyPath && e.writerDim(t) > 0
 	})
-	// --- writes ---
-	ssau.AllInstrs(fn, func(in ssa.Instruction) {
-		mu, ok := in.(*ssa.MapUpdate)
+	// --- writes: in fn itself, and in same-package helpers fn calls (parameters bound to arguments) ---
+	recordWrite := func(mu *ssa.MapUpdate, bind map[ssa.Value]ssa.Value, site ssa.Instruction) {
+		id, ok := mapID(mu.Map, bind)
 		if !ok {
 			return
 		}
-		mm, ok := mu.Map.(*ssa.MakeMap)
-		cm := maps[mm]
-		if !ok || cm == nil {
-			return
-		}
+		cm := get(id, site.Pos())
 		cm.writes++
 		if k, isC := mu.Value.(*ssa.Const); !isC || k.Value == nil || k.Value.String() != "true" {
 			cm.bad = "a claim is recorded with a value other than true"
@@ -166,8 +216,16 @@ func CLAIM1(e *Env) {
 		cm.wForms[fmt.Sprintf("%d%s", d, form)] = true
 		// the claim is made only for accepted writers: MeshQualifies(prop) true, and prop appended to the writers
 		prop := ta.X
+		if bind != nil {
+			bound, isBound := bind[prop]
+			if !isBound {
+				cm.bad = "the helper records a claim for something other than the property writer it was given"
+				return
+			}
+			prop = bound
+		}
 		okQual := false
-		for _, c := range CondsAt(mu.Block()) {
+		for _, c := range CondsAt(site.Block()) {
 			if cl, isCall := c.V.(*ssa.Call); isCall && cl.Common().IsInvoke() && cl.Common().Method.Name() == "MeshQualifies" && cl.Common().Value == prop && c.Pos {
 				okQual = true
 			}
@@ -182,34 +240,61 @@ func CLAIM1(e *Env) {
 			if !ok || ssau.Builtin(cl) != "append" {
 				return
 			}
-			if flowsInto(prop, cl.Common().Args[1]) && (cl.Block().Dominates(mu.Block())) {
+			if flowsInto(prop, cl.Common().Args[1]) && (cl.Block().Dominates(site.Block())) {
 				okApp = true
 			}
 		})
 		if !okApp {
 			cm.bad = "an attribute is marked claimed although its writer is not (always) added to the list of writers"
 		}
-	})
-	// --- reads ---
+	}
+	helperBody := func(cl *ssa.Call) (*ssa.Function, map[ssa.Value]ssa.Value) {
+		if cl.Common().IsInvoke() {
+			return nil, nil
+		}
+		g := cl.Common().StaticCallee()
+		if g == nil {
+			return nil, nil
+		}
+		if o := g.Origin(); o != nil {
+			g = o
+		}
+		if g.Blocks == nil || g.Pkg == nil || g.Pkg.Pkg.Path() != PlyPath || g == fn || len(cl.Common().Args) != len(g.Params) {
+			return nil, nil
+		}
+		bind := map[ssa.Value]ssa.Value{}
+		for i, p := range g.Params {
+			bind[p] = cl.Common().Args[i]
+		}
+		return g, bind
+	}
 	ssau.AllInstrs(fn, func(in ssa.Instruction) {
-		lk, ok := in.(*ssa.Lookup)
-		if !ok {
-			return
+		switch x := in.(type) {
+		case *ssa.MapUpdate:
+			recordWrite(x, nil, x)
+		case *ssa.Call:
+			if g, bind := helperBody(x); g != nil {
+				ssau.AllInstrs(g, func(in2 ssa.Instruction) {
+					if mu, ok := in2.(*ssa.MapUpdate); ok {
+						recordWrite(mu, bind, x)
+					}
+				})
+			}
 		}
-		mm, ok := lk.X.(*ssa.MakeMap)
-		cm := maps[mm]
-		if !ok || cm == nil {
-			return
-		}
+	})
+	// --- reads: a Lookup in fn, or a same-package helper that returns the Lookup on its parameters ---
+	recordRead := func(id string, answer ssa.Value, key ssa.Value, at ssa.Instruction) {
+		cm := get(id, at.Pos())
 		if cm.lookup != nil {
 			cm.bad = "claimed set is consulted in more than one place"
 			return
 		}
-		cm.lookup = lk
-		cm.key = lk.Index
-		cm.readLoop = ssau.InnermostLoop(loops, lk.Block())
+		cm.lookup = answer
+		cm.key = key
+		cm.pos = at.Pos()
+		cm.readLoop = ssau.InnermostLoop(loops, at.Block())
 		// key is an element of Mesh.FloatKAttributes()
-		BackSlice(lk.Index, func(v ssa.Value) bool {
+		BackSlice(key, func(v ssa.Value) bool {
 			if _, callee := CallTo(v); callee != nil && ssau.IsMethod(callee, ModelingPath, "Mesh", callee.Name()) {
 				if m := reFloatAttrs.FindStringSubmatch(callee.Name()); m != nil {
 					cm.readDim = int(m[1][0] - '0')
@@ -217,20 +302,57 @@ func CLAIM1(e *Env) {
 			}
 			return true
 		})
+	}
+	ssau.AllInstrs(fn, func(in ssa.Instruction) {
+		switch x := in.(type) {
+		case *ssa.Lookup:
+			if x.CommaOk {
+				return
+			}
+			if id, ok := mapID(x.X, nil); ok {
+				recordRead(id, x, x.Index, x)
+			}
+		case *ssa.Call:
+			g, bind := helperBody(x)
+			if g == nil || g.Signature.Results().Len() != 1 {
+				return
+			}
+			var lk *ssa.Lookup
+			nret, okRet := 0, true
+			ssau.AllInstrs(g, func(in2 ssa.Instruction) {
+				if r, ok := in2.(*ssa.Return); ok {
+					nret++
+					l, isL := r.Results[0].(*ssa.Lookup)
+					if !isL || l.CommaOk {
+						okRet = false
+						return
+					}
+					lk = l
+				}
+			})
+			if nret != 1 || !okRet || lk == nil {
+				return
+			}
+			id, ok := mapID(lk.X, bind)
+			key, isBound := bind[lk.Index]
+			if ok && isBound {
+				recordRead(id, x, key, x)
+			}
+		}
 	})
 	// --- per map verdicts ---
 	seenDim := map[int]bool{}
-	for _, mm := range order {
-		cm := maps[mm]
+	for _, id := range order {
+		cm := maps[id]
 		if cm.writes == 0 && cm.lookup == nil {
 			continue
 		}
+		if cm.writes == 0 && cm.readDim == 0 {
+			continue // some other map[string]bool that is merely read here
+		}
 		d := cm.readDim
 		construct := fmt.Sprintf("%s/claimed-Float%d", name, d)
-		pos := mm.Pos()
-		if cm.lookup != nil {
-			pos = cm.lookup.Pos()
-		}
+		pos := cm.pos
 		var facts []string
 		bad := cm.bad
 		if bad == "" && (cm.lookup == nil || cm.readLoop == nil || d == 0) {
@@ -336,8 +458,8 @@ func CLAIM1(e *Env) {
 	}
 	for d := 1; d <= 4; d++ {
 		found := false
-		for _, mm := range order {
-			if maps[mm].readDim == d {
+		for _, id := range order {
+			if maps[id].readDim == d {
 				found = true
 			}
 		}
@@ -360,6 +482,138 @@ func (e *Env) texCoordName() string {
 }
 
 // CLAIM2 decides DESIGN §4 C08 CLAIM-2 on the two unclaimed-property loops of MeshReader.Read.
+// membershipHelper summarises a same-package boolean helper that answers "is prop claimed by one
+// of these readers": it scans the whole reader list it is given, asks ClaimsProperty(prop) of
+// every element, returns true only under a true answer and false only after the list is exhausted.
+// Returns the indices of the list and property parameters.
+func membershipHelper(e *Env, g *ssa.Function) (listParam, propParam int, ok bool) {
+	if g.Signature.Results().Len() != 1 {
+		return 0, 0, false
+	}
+	if b, isB := g.Signature.Results().At(0).Type().Underlying().(*types.Basic); !isB || b.Kind() != types.Bool {
+		return 0, 0, false
+	}
+	var calls []*ssa.Call
+	ssau.AllInstrs(g, func(in ssa.Instruction) {
+		if c, isC := in.(*ssa.Call); isC && c.Common().IsInvoke() && c.Common().Method.Name() == "ClaimsProperty" && c.Common().Method.Pkg() != nil && c.Common().Method.Pkg().Path() == PlyPath {
+			calls = append(calls, c)
+		}
+	})
+	if len(calls) != 1 {
+		return 0, 0, false
+	}
+	c := calls[0]
+	paramIdx := func(v ssa.Value) int {
+		for i, p := range g.Params {
+			if ssa.Value(p) == v {
+				return i
+			}
+		}
+		return -1
+	}
+	propParam = paramIdx(c.Common().Args[0])
+	ia, isEl := loadOfIndex(c.Common().Value)
+	if propParam < 0 || !isEl {
+		return 0, 0, false
+	}
+	listParam = paramIdx(ia.X)
+	if listParam < 0 {
+		return 0, 0, false
+	}
+	l := ssau.InnermostLoop(e.Loops(g), c.Block())
+	if l == nil {
+		return 0, 0, false
+	}
+	// the whole list: index counter from entry 0, step 1, `< len(list)`
+	var ctr *Counter
+	form := LinEval(ia.Index, func(v ssa.Value) (Lin, bool) {
+		if phi, isPhi := v.(*ssa.Phi); isPhi {
+			if cc := e.CounterOf(phi); cc != nil && cc.Loop == l {
+				ctr = cc
+				return linSym(phi), true
+			}
+		}
+		return Lin{}, false
+	})
+	if ctr == nil || form.Bad {
+		return 0, 0, false
+	}
+	init, step, okStep := counterStep(ctr)
+	if !okStep || step*form.Coef[ctr.Phi] != 1 || form.K+form.Coef[ctr.Phi]*init != 0 {
+		return 0, 0, false
+	}
+	hn := len(l.Header.Instrs)
+	iff, _ := l.Header.Instrs[hn-1].(*ssa.If)
+	cmp, _ := func() (*ssa.BinOp, bool) {
+		if iff == nil {
+			return nil, false
+		}
+		b, ok := iff.Cond.(*ssa.BinOp)
+		return b, ok
+	}()
+	if cmp == nil || cmp.Op != token.LSS {
+		return 0, 0, false
+	}
+	if ln, isCall := cmp.Y.(*ssa.Call); !isCall || ssau.Builtin(ln) != "len" || ln.Common().Args[0] != ia.X {
+		return 0, 0, false
+	}
+	// early exits: only `return true` under a true answer
+	for _, b := range g.Blocks {
+		if !l.Blocks[b] || b == l.Header {
+			continue
+		}
+		for _, su := range b.Succs {
+			if l.Blocks[su] {
+				continue
+			}
+			r, isRet := su.Instrs[len(su.Instrs)-1].(*ssa.Return)
+			if !isRet {
+				return 0, 0, false
+			}
+			k, isC := r.Results[0].(*ssa.Const)
+			if !isC || k.Value == nil || k.Value.String() != "true" {
+				return 0, 0, false
+			}
+			okLit := false
+			for _, lit := range append(CondsAt(su), CondsOnEdge(b, su)...) {
+				if lit.V == ssa.Value(c) && lit.Pos {
+					okLit = true
+				}
+			}
+			if !okLit {
+				return 0, 0, false
+			}
+		}
+	}
+	// every other return is `false` after the list is exhausted
+	okAll := true
+	ssau.AllInstrs(g, func(in ssa.Instruction) {
+		r, isRet := in.(*ssa.Return)
+		if !isRet {
+			return
+		}
+		k, isC := r.Results[0].(*ssa.Const)
+		if !isC || k.Value == nil {
+			okAll = false
+			return
+		}
+		if k.Value.String() == "false" {
+			if l.Blocks[r.Block()] || !l.Header.Dominates(r.Block()) {
+				okAll = false
+			}
+		}
+	})
+	return listParam, propParam, okAll
+}
+
+type claimSite struct {
+	c      *ssa.Call  // the call whose boolean result answers "prop is claimed" (ClaimsProperty, or a membership helper)
+	prop   ssa.Value  // the property asked about
+	list   ssa.Value  // the reader list consulted
+	inner  *ssau.Loop // the loop over the readers when the test is inline
+	helper string
+}
+
 func CLAIM2(e *Env) {
 	const rule = "CLAIM-2"
 	fn := e.Fn("MeshReader.Read")
@@ -368,31 +622,64 @@ func CLAIM2(e *Env) {
 	}
 	name := e.Name(fn)
 	loops := e.Loops(fn)
-	var sites []*ssa.Call
+	var sites []claimSite
 	ssau.AllInstrs(fn, func(in ssa.Instruction) {
-		if c, ok := in.(*ssa.Call); ok && c.Common().IsInvoke() && c.Common().Method.Name() == "ClaimsProperty" && c.Common().Method.Pkg().Path() == PlyPath {
-			sites = append(sites, c)
+		c, ok := in.(*ssa.Call)
+		if !ok {
+			return
+		}
+		if c.Common().IsInvoke() {
+			if c.Common().Method.Name() == "ClaimsProperty" && c.Common().Method.Pkg().Path() == PlyPath {
+				st := claimSite{c: c, prop: c.Common().Args[0], inner: ssau.InnermostLoop(loops, c.Block())}
+				if ia, isEl := loadOfIndex(c.Common().Value); isEl {
+					st.list = ia.X
+				}
+				sites = append(sites, st)
+			}
+			return
+		}
+		g := c.Common().StaticCallee()
+		if g == nil {
+			return
+		}
+		if o := g.Origin(); o != nil {
+			g = o
+		}
+		if g.Blocks == nil || g.Pkg == nil || g.Pkg.Pkg.Path() != PlyPath || len(c.Common().Args) != len(g.Params) {
+			return
+		}
+		if lp, pp, okH := membershipHelper(e, g); okH {
+			sites = append(sites, claimSite{c: c, prop: c.Common().Args[pp], list: c.Common().Args[lp], helper: g.Name()})
 		}
 	})
-	sort.Slice(sites, func(i, j int) bool { return sites[i].Pos() < sites[j].Pos() })
+	sort.Slice(sites, func(i, j int) bool { return sites[i].c.Pos() < sites[j].c.Pos() })
 	if len(sites) == 0 {
-		e.Violate(fn, rule, name+"/unclaimed", fn.Pos(), "no ClaimsProperty test: extra scalar properties are either all dropped or all duplicated")
+		e.Violate(fn, rule, name+"/unclaimed", fn.Pos(), "no ClaimsProperty test (inline or through a helper that scans the built readers): extra scalar properties are either all dropped or all duplicated")
 		return
 	}
-	for _, c := range sites {
-		inner := ssau.InnermostLoop(loops, c.Block())
+	for _, st := range sites {
+		c := st.c
+		inner := st.inner
 		construct := name + "/unclaimed"
-		if inner == nil {
+		if inner == nil && st.helper == "" {
 			e.Undecide(fn, rule, construct, c.Pos(), "ClaimsProperty is not called in a loop over the built readers")
 			continue
 		}
+		if inner == nil {
+			// the readers are scanned inside the helper: an empty stand-in keeps the tests below uniform
+			inner = &ssau.Loop{Blocks: map[*ssa.BasicBlock]bool{}}
+		}
 		var outer *ssau.Loop
 		for _, l := range loops {
-			if l != inner && l.Blocks[inner.Header] && (outer == nil || len(l.Blocks) < len(outer.Blocks)) {
+			in := l.Blocks[c.Block()]
+			if st.helper == "" {
+				in = l != inner && l.Blocks[inner.Header]
+			}
+			if in && (outer == nil || len(l.Blocks) < len(outer.Blocks)) {
 				outer = l
 			}
 		}
-		prop := c.Common().Args[0]
+		prop := st.prop
 		bad := ""
 		var facts []string
 		// the build call that follows
@@ -539,7 +826,7 @@ func CLAIM2(e *Env) {
 						bad = "the new reader is appended on a different path than it is built"
 					}
 					// does this append feed the slice ranged by the inner loop?
-					if ia, ok := loadOfIndex(c.Common().Value); ok && flowsInto(cl, ia.X) {
+					if st.list != nil && flowsInto(cl, st.list) {
 						toInner = true
 					}
 				}
@@ -551,6 +838,9 @@ func CLAIM2(e *Env) {
 				bad = "the new reader is not added to the list that is consulted for later properties and used for decoding"
 			}
 			facts = append(facts, "flag reset per property; set only under ClaimsProperty(prop); reader built under !claimed for prop.Name(); appended to both reader lists")
+			if st.helper != "" {
+				facts = append(facts, "membership answered by helper "+st.helper+": scans the whole list, true only under ClaimsProperty(prop), false only after exhaustion")
+			}
 		}
 		if bad != "" {
 			e.Violate(fn, rule, construct, c.Pos(), bad)
